@@ -129,6 +129,8 @@ def mk_case(T, names, H, RL, RO, S, ops):
         hf += " DH=1"
     if T.get("OW"):
         hf += " OW=1"
+    if T.get("AR"):
+        hf += " AR=" + T["AR"]
     B = T.get("B")
     if B is None:
         import zlib
@@ -205,6 +207,10 @@ def corpus():
     out.append(mk_case(base_T(C="0", OW=1), names, ["o", "o", "o"], 0, 0, [],
                        ["rd 0 0", "rd 1 0", "ro 2", "set 3", "ud 0", "set 4", "rd 0 1", "set 5"]))
     out.append(mk_case(base_T(C="2", OW=1), names, ["o", "o"], 0, 0, [], ["ra 0 0", "ra 1 0", "set 3", "ua 1", "set 4"]))
+    # handlers of arity 1..4 as bound methods; the owner of one dies between changes
+    out.append(mk_case(base_T(C="0", OW=1, AR="1.2.3.4"), names, ["o"] * 4, 0, 0, [],
+                       ["rd 0 0", "rd 1 0", "rd 2 0", "rd 3 0", "set 3", "kd 1", "set 4", "kd 3", "set 4", "del"]))
+    out.append(mk_case(base_T(C="2", OW=1, AR="4.4"), names, ["o", "o"], 0, 0, [], ["ra 0 0", "rd 1 0", "set 3", "ka 0", "set 5"]))
     # shape a: an unrelated trait of another comparison mode is notified through _anytrait_changed first
     out.append(mk_case(base_T(C="0", Z="a", X="2"), names, ["o", "o", "o"], 0, 0, ["a0", "c1"],
                        ["ro 2", "sib w 3", "set 3", "set 4", "set 4", "set 5"]))
@@ -510,6 +516,29 @@ def aux_case(rng):
     return mk_case(T, names, ["o"] * nh, 0, 0, S, ops)
 
 
+def owner_case(rng):
+    """Bound-method handlers of every arity whose owner dies between changes: 2-4 listener objects (equal but distinct)
+    register their method by name (arity 1-4) or object-level; between assignments some of them are deleted; the
+    survivors keep hearing every real change exactly once, the dead ones nothing, nothing raises."""
+    names = ["Uninitialized", "Undefined", "None", "int1", "float1", "int7", "str_c", "big_a"]
+    nh = rng.randint(2, 4)
+    roles = [rng.choice(["dyn", "dyn", "any"]) for _ in range(nh)]
+    T = base_T(C=rng.choice("012"), K="E" if rng.random() < 0.15 else "T", OW=1)
+    T["AR"] = ".".join(str(rng.randint(1, 4)) for _ in range(nh))
+    ops = [reg_op(rng, roles[h], h) for h in range(nh)]
+    alive = list(range(nh))
+    for _ in range(rng.randint(3, 8)):
+        r = rng.random()
+        if r < 0.65 or not alive:
+            ops.append("set %d" % rng.randint(3, 7))
+        elif r < 0.75:
+            ops.append("del")
+        else:
+            h = alive.pop(rng.randrange(len(alive)))
+            ops.append("%s %d" % ("kd" if roles[h] == "dyn" else "ka", h))
+    return mk_case(T, names, ["o"] * nh, 0, 0, [], ops)
+
+
 def first_read_case(rng):
     """The first read of a never-assigned value during which `post_setattr` raises (at its first or second call):
     the default has been computed and stored by then and stays stored (getattr_trait's error exit only drops its own
@@ -555,6 +584,8 @@ def generate(rng, tier):
             yield first_read_case(rng)
         if i % 20 == 0:
             yield aux_case(rng)
+        if i % 20 == 10:
+            yield owner_case(rng)
         yield random_case(rng)
 
 
@@ -732,6 +763,20 @@ def run_impl(case):
         def on_change(self, obj, name, old, new):
             if name == "x":
                 fire(self.h, old, new)
+
+        # handlers of smaller arity (by-name registrations only): what is not passed is taken from what the harness
+        # knows was readable before the operation; what IS passed is recorded as received
+        def on_change3(self, obj, name, new):
+            if name == "x":
+                fire(self.h, holder["old_now"], new)
+
+        def on_change2(self, name, new):
+            if name == "x":
+                fire(self.h, holder["old_now"], new)
+
+        def on_change1(self, new):
+            fire(self.h, holder["old_now"], new)
+    ARITY = [int(a) for a in Hf.get("AR", "").split(".") if a != ""]
     OW = Hf.get("OW") == "1"
     if OW:
         tags.add("handler-owners:equal-but-distinct")
@@ -741,7 +786,9 @@ def run_impl(case):
         if role in ("dyn", "any"):
             if OW:
                 owners[h] = _Owner(h)
-                fns[h] = owners[h].on_change
+                ar = ARITY[h] if (h < len(ARITY) and role == "dyn") else 4
+                tags.add("handler-arity:%d" % ar)
+                fns[h] = getattr(owners[h], "on_change" if ar == 4 else "on_change%d" % ar)
             else:
                 fns[h] = mk_dyn(h)
         elif role == "obs":
@@ -970,6 +1017,7 @@ def run_impl(case):
                 # exc from __init__
             else:
                 slot_before = obj.__dict__.get("x", A)
+                holder["old_now"] = (pool.objs[A.UNDEF] if kind == "E" else dobj if slot_before is A else slot_before)
                 exc = None
                 try:
                     if k == "set":
@@ -997,6 +1045,15 @@ def run_impl(case):
                     elif k == "ra":
                         obj.on_trait_change(fns[int(op[1])], priority=op[2] == "1")
                         registered[int(op[1])] = 1
+                    elif k in ("kd", "ka"):
+                        # the listener object dies: nothing else refers to it
+                        h = int(op[1])
+                        del fns[h]
+                        del owners[h]
+                        import gc
+                        gc.collect()
+                        registered[h] = 0
+                        tags.add("owner-died")
                     elif k == "ua":
                         unregister(int(op[1]))
                         registered[int(op[1])] = 0
